@@ -40,9 +40,11 @@ fn main() {
             .expect("replay file carries no specs")
     } else {
         // bytes for the decoder: a ChaCha-free, dependency-free stream from the seed
-        let mut bytes = Vec::with_capacity(n * 400);
+        // (at least 64 KiB of decoder input, whatever n is)
+        let want = (n * 400).max(65536);
+        let mut bytes = Vec::with_capacity(want);
         let mut k = 0u64;
-        while bytes.len() < n * 400 {
+        while bytes.len() < want {
             bytes.extend_from_slice(&vmodel::ev::seed_bytes(vmodel::ev::hash64(&(seed, &kind, k))));
             k += 1;
         }
